@@ -2477,7 +2477,7 @@ class sptensor:
                 self.vals = newvals
             elif addsubs.size > 0:
                 self.subs = addsubs
-                self.vals = value.vals
+                self.vals = value.vals.copy()
             else:
                 self.subs = np.array([], ndmin=2, dtype=int)
                 self.vals = np.array([], ndmin=2)
